@@ -46,6 +46,7 @@ class Sym:
     ATOMS = {}      # z3 ast id -> z3 term
     DENOMS = {}     # z3 ast id -> z3 term (everything that was divided by)
     POLICY = None   # callable(kind, lhs, rhs) -> bool for ==, !=, <, ... on symbolic values (E4 runs)
+    SQRT_HOOK = None   # callable(Sym) -> Sym for x ** 0.5 (harness supplies an atom q with q*q == x, q > 0)
     SNAPS = {}      # float -> 'p/q': binary doubles of the executed Python code (e.g. 1/3.) read as the rational they round
 
     def __init__(self, n, d=None):
@@ -196,6 +197,8 @@ class Sym:
         return o + (-self)
 
     def __mul__(self, o):
+        if isinstance(o, complex):
+            return CSym(self * o.real, self * o.imag)
         try:
             o = Sym.lift(o)
         except TypeError:
@@ -269,6 +272,8 @@ class Sym:
             k = int(k)
         if isinstance(k, Fraction) and k.denominator == 1:
             k = int(k)
+        if isinstance(k, (float, Fraction)) and Fraction(k) == Fraction(1, 2) and Sym.SQRT_HOOK is not None:
+            return Sym.SQRT_HOOK(self)
         if not isinstance(k, int):
             raise TypeError('Sym ** non-integer')
         if k < 0:
@@ -344,6 +349,42 @@ class Sym:
     def num_over(self, D):
         """numerator as z3 term after scaling to common denominator monomial D"""
         return Sym._z(Sym._scale(self.n, self.d, D))
+
+
+class CSym:
+    """re + i*im with Sym parts (only what calc_cA needs)"""
+    __slots__ = ('re', 'im')
+
+    def __init__(self, re, im):
+        self.re, self.im = Sym.lift(re), Sym.lift(im)
+
+    @staticmethod
+    def lift(x):
+        if isinstance(x, CSym):
+            return x
+        if isinstance(x, complex):
+            return CSym(x.real, x.imag)
+        return CSym(x, 0)
+
+    def __add__(self, o):
+        o = CSym.lift(o)
+        return CSym(self.re + o.re, self.im + o.im)
+    __radd__ = __add__
+
+    def __neg__(self): return CSym(-self.re, -self.im)
+    def __sub__(self, o): return self + (-CSym.lift(o))
+    def __rsub__(self, o): return CSym.lift(o) + (-self)
+
+    def __mul__(self, o):
+        o = CSym.lift(o)
+        return CSym(self.re * o.re - self.im * o.im, self.re * o.im + self.im * o.re)
+    __rmul__ = __mul__
+
+    def is_zero(self): return self.re.is_zero() and self.im.is_zero()
+    def isnan(self): return False
+    def isinf(self): return False
+    def conjugate(self): return CSym(self.re, -self.im)
+    def __repr__(self): return 'CSym(%r, %r)' % (self.re, self.im)
 
 
 def identity_terms(x, y):
